@@ -262,3 +262,73 @@ func verifH_C06_StaleRefresh() {
 }
 
 var _ = errors.New
+
+// SkipRead after a failed build: the failure cache remembers the error, but a Get that carries
+// SkipRead still rebuilds (SkipRead reaches the failure cache's own backend too) and the result is
+// stored; without SkipRead the remembered error is served and nothing is built.
+func verifC06SkipAfterFailure(generic bool) {
+	verifInstallClock(verifT0, verifT1, true)
+	verifRandFn = func() float64 { return 0.5 }
+	skip := verifBool("skipRead")
+	errBuild := errors.New("build failed")
+	builds := 0
+	ctx := context.Background()
+	ctx2 := ctx
+	if skip {
+		ctx2 = WithSkipRead(ctx)
+	}
+	var err1, err2 error
+	builds1 := 0
+	var v2 interface{}
+	var stored interface{}
+	var storedOK bool
+	if !generic {
+		be := &verifRecBackend{readErr: ErrNotFound}
+		f := NewFailover(FailoverConfig{Backend: be}.Use)
+		build := func(c context.Context) (interface{}, error) {
+			builds++
+			if builds == 1 {
+				return nil, errBuild
+			}
+			return "built", nil
+		}
+		_, err1 = f.Get(ctx, []byte("k"), build)
+		builds1 = builds
+		v2, err2 = f.Get(ctx2, []byte("k"), build)
+		stored, storedOK = be.readVal, be.readOK
+	} else {
+		rw := &verifFaultyRW{errFault: errors.New("backend fault")}
+		f := NewFailoverOf[int](FailoverConfigOf[int]{Backend: verifFaultyBackendOf{rw}}.Use)
+		build := func(c context.Context) (int, error) {
+			builds++
+			if builds == 1 {
+				return 0, errBuild
+			}
+			return verifBuiltVal, nil
+		}
+		_, err1 = f.Get(ctx, []byte("k"), build)
+		builds1 = builds
+		var vi int
+		vi, err2 = f.Get(ctx2, []byte("k"), build)
+		if err2 == nil {
+			v2 = vi
+		}
+		stored, storedOK = rw.val, rw.state == 1
+	}
+	verifAssert("first Get returns the builder error", err1 != nil && errors.Is(err1, errBuild) && builds1 == 1)
+	if skip {
+		verifReach("SkipRead after a failed build")
+		verifAssert("SkipRead forces a rebuild", builds == 2 && err2 == nil)
+		if generic {
+			verifAssert("the rebuilt value is returned and stored", v2 == verifBuiltVal && storedOK && stored == verifBuiltVal)
+		} else {
+			verifAssert("the rebuilt value is returned and stored", v2 == "built" && storedOK && stored == "built")
+		}
+	} else {
+		verifReach("no SkipRead after a failed build")
+		verifAssert("the remembered failure is served without a build", builds == 1 && err2 != nil && errors.Is(err2, errBuild))
+	}
+}
+
+func verifH_C06_SkipAfterFailure()   { verifC06SkipAfterFailure(false) }
+func verifH_C06_SkipAfterFailureOf() { verifC06SkipAfterFailure(true) }
